@@ -15,8 +15,6 @@ import (
 	"strings"
 
 	"cuelabs.dev/go/oci/ociregistry"
-	"cuelabs.dev/go/oci/ociregistry/ociref"
-	"github.com/opencontainers/go-digest"
 	ocispec "github.com/opencontainers/image-spec/specs-go/v1"
 	"verif/harness/hx"
 )
@@ -415,7 +413,7 @@ func drainStrings(seq ociregistry.Seq[string]) Result {
 // the model treats as Section variables answer on the real code.
 type Oracles struct {
 	Hash    map[string]string // content -> sha256 digest
-	Digests map[string]bool   // digest string -> Validate() == nil
+	Digests map[string]bool   // digest string -> valid by the specification's grammar (spec.go)
 	Repos   map[string]bool
 	Tags    map[string]bool
 	Images  map[string]string // content -> Coq term (Some image_manifest) / None
@@ -437,18 +435,11 @@ func (or *Oracles) Content(c []byte) {
 	or.Digest(Sha(c))
 }
 
-func safeValidTag(t string) (ok bool) {
-	defer func() {
-		if recover() != nil {
-			ok = false
-		}
-	}()
-	return ociref.IsValidTag(t)
-}
-
-func (or *Oracles) Digest(d string) { or.Digests[d] = digest.Digest(d).Validate() == nil }
-func (or *Oracles) Repo(r string)   { or.Repos[r] = ociref.IsValidRepository(r) }
-func (or *Oracles) Tag(t string)    { or.Tags[t] = safeValidTag(t) }
+// The three validity tables come from an independent statement of the grammars (spec.go), not
+// from the validators of the library under test: see the comment there.
+func (or *Oracles) Digest(d string) { or.Digests[d] = SpecValidDigest(d) }
+func (or *Oracles) Repo(r string)   { or.Repos[r] = SpecValidRepository(r) }
+func (or *Oracles) Tag(t string)    { or.Tags[t] = SpecValidTag(t) }
 
 func ocispecDesc(d ocispec.Descriptor) string {
 	return coqDesc(Desc{Media: d.MediaType, Digest: string(d.Digest), Size: d.Size})
